@@ -1167,6 +1167,90 @@ def e3_watch_scenarios(ctx):
                             f"{name}: the failing step was fixed and the last phase succeeded, exit status {final}", witness=wit)
 
 
+def e3_stop_scenarios(ctx):
+    """The stop routes through the REAL director (watch session, in-process): after a first clean phase every
+    step is made pending again by an edit, a new phase is started and immediately `drain()` (RPC), `shutdown()`
+    (the q key) or `interrupt(SIGINT)` (terminal signal) is called.  The exit status of serve() is judged
+    against the states stored when it returned: DRAINED iff the scheduler was draining, no PENDING bit while
+    draining, FAILED iff an attached step is FAILED, never zero with a pending required step."""
+    import signal
+    from . import e3
+    plan = [_PF, {"op": "static", "paths": ["a.txt"]}] + [
+        {"op": "step", "label": f"s{j}", "inp": ["a.txt"], "out": [f"o{j}.txt"]} for j in range(3)]
+    checks, names, wits = [], [], {}
+    for kind in ("drain", "shutdown", "interrupt", "shutdown-idle", "shutdown-preempted"):
+        name = f"stop:{kind}"
+        try:
+            project = e3.Project(sources={"a.txt": "x\n"}, program={"scripts": {"plan.py": plan}, "commands": {}})
+            with tempfile.TemporaryDirectory(prefix="c19-e3s-") as root:
+                project.materialise(root)
+                ws = e3.WatchSession(root, project.program)
+                with ws:
+                    r0 = ws.first()
+                    ws.write("a.txt", "changed\n")
+                    ws.sync()
+                    handler = ws.handler
+
+                    async def go(kind=kind, handler=handler, ws=ws):
+                        if kind != "shutdown-idle":
+                            await handler.start_build_phase()
+                        if kind not in ("shutdown-idle", "shutdown-preempted"):
+                            # let Builder.run_once take the resume event: the phase has begun and will be
+                            # finalized, whatever the stop route does to the steps that have not started
+                            for _ in range(10000):
+                                if not handler.builder.resume.is_set():
+                                    break
+                                await asyncio.sleep(0)
+                        if kind == "drain":
+                            await handler.drain()
+                            await handler.wait_for_idle()
+                            await handler.wait_and_shutdown()
+                        elif kind in ("shutdown", "shutdown-idle", "shutdown-preempted"):
+                            await handler.shutdown()
+                        else:
+                            handler.interrupt(signal.SIGINT)
+                        sres = await asyncio.wait_for(ws._serve_task, 60)
+                        async with e3._harness_txn(ws._ctx, handler.db):
+                            pr = _e3_probe(handler, handler.db)
+                        return int(sres.returncode.value), pr
+                    rc, pr = ws._run(go(), name)
+        except Exception as e:  # noqa: BLE001
+            ctx.add_failure("oracle", "e3-crash", f"e3:crash:{name}", f"stop scenario {name} raised {type(e).__name__}: {e}")
+            continue
+        nfailed = sum(1 for st, need, det in pr["steps"] if st == 24 and not det)
+        npend = sum(1 for st, need, det in pr["steps"] if st == 21 and need > pr["threshold"] and not det)
+        ctx.count(f"e3:{name}:first={r0.returncode}:exit={rc}:pending={npend}:draining={pr['draining']}")
+        ctx.case(("e3", name, rc, npend), True)
+        wit = {"scenario": name, "exit": rc, "probe": pr}
+        wits[name] = wit
+        if kind in ("shutdown-idle", "shutdown-preempted"):
+            # No phase was finalized after the clean first one (the director was watching, or the requested
+            # phase was pre-empted before Builder.run_once took the resume event): the exit status is the one of
+            # the last finalized phase (C19_exit_status_is_last_phase), by design of watch mode.
+            if rc != r0.returncode:
+                ctx.add_failure("oracle", "e3", f"e3:stop:{kind}:exit-status-is-not-the-last-finalized-phase",
+                                f"first phase returned {r0.returncode}, no later phase was finalized, exit status {rc}", witness=wit)
+            continue
+        if bool(rc & 32) != bool(pr["draining"]):
+            ctx.add_failure("oracle", "e3", f"e3:stop:{kind}:DRAINED-bit", f"exit status {rc}, probe {pr}", witness=wit)
+        if bool(rc & 16) != ((not pr["draining"]) and npend > 0):
+            ctx.add_failure("oracle", "e3", f"e3:stop:{kind}:PENDING-bit", f"exit status {rc}, probe {pr}", witness=wit)
+        if bool(rc & 4) != (nfailed > 0):
+            ctx.add_failure("oracle", "e3", f"e3:stop:{kind}:FAILED-bit", f"exit status {rc}, probe {pr}", witness=wit)
+        if rc == 0 and (npend or nfailed):
+            ctx.add_failure("oracle", "e3", f"e3:stop:{kind}:zero-with-unbuilt-steps", f"probe {pr}", witness=wit)
+        if rc & 3:
+            ctx.add_failure("oracle", "e3", f"e3:stop:{kind}:foreign-bit", f"exit status {rc}", witness=wit)
+        checks.append(f"(serve_rc false (mk_ru {nfailed} {coq_bool(pr['draining'])} {npend} {pr['miss_t']} "
+                      f"{pr['miss_d']} {pr['glob_warn']} {pr['glob_err']}) =? {rc})")
+        names.append(name)
+    bad = common.run_cases(ctx, "e3stop", HEADER, checks) if checks else []
+    ctx.traces_validated += len(checks) - len(bad)
+    for i in bad:
+        ctx.add_failure("correspondence", "e3:" + names[i], "E3:model-vs-serve:returncode:stop-route",
+                        f"model exit status differs from serve() in {names[i]}: {checks[i]}", witness=wits[names[i]])
+
+
 def try_e3(ctx, ngen=None):
     """Real serve() on fixed and generated projects: exit status versus the model and versus the property."""
     try:
@@ -1240,6 +1324,7 @@ def try_e3(ctx, ngen=None):
                         or any(st != 23 for st, need, det in pr["steps"] if need > pr["threshold"] and not det)):
             ctx.add_failure("oracle", "e3", "e3:zero-but-something-wrong", f"{name}: probe={pr}", witness=dict(witnesses[name], rc=rc))
     e3_watch_scenarios(ctx)
+    e3_stop_scenarios(ctx)
     ctx.notes.append(f"E3 part: {len(checks)} serve() builds compared with the model, 2 watch sessions")
 
 
